@@ -18,7 +18,7 @@ use std::collections::BTreeMap;
 pub struct C16Check;
 pub static C16: C16Check = C16Check;
 
-const KINDS: [&str; 9] = ["alias", "var-action", "var-atom", "var-concat", "template", "template-if-equal", "include", "platform", "layermap"];
+const KINDS: [&str; 11] = ["alias", "var-action", "var-atom", "var-concat", "template", "template-if-equal", "template-nested-cond", "template-toplevel-form", "include", "platform", "layermap"];
 
 fn profile() -> Profile {
     // kinds whose run-time behaviour crashes on the unchanged tree (C02's findings) or sleeps are left out
@@ -53,17 +53,6 @@ fn is_number(n: &Node) -> bool {
     matches!(n, Node::Atom(a) if !a.is_empty() && a.chars().all(|c| c.is_ascii_digit()))
 }
 
-fn get_mut<'a>(forms: &'a mut [Node], path: &[usize]) -> Option<&'a mut Node> {
-    let mut cur = forms.get_mut(*path.first()?)?;
-    for &i in &path[1..] {
-        match cur {
-            Node::List(l) => cur = l.get_mut(i)?,
-            _ => return None,
-        }
-    }
-    Some(cur)
-}
-
 /// indices of the children of action list `n` that are themselves actions
 fn action_children(n: &Node) -> Vec<usize> {
     let Node::List(l) = n else { return vec![] };
@@ -91,7 +80,7 @@ fn number_children(n: &Node) -> Vec<usize> {
     idx.into_iter().filter(|&i| i < l.len() && is_number(&l[i])).collect()
 }
 
-/// paths of all action positions reachable from layer cells (cells first, then nested)
+/// paths of all action positions: layer cells and alias values (also inside a platform wrapper), then nested
 fn action_sites(forms: &[Node]) -> Vec<Vec<usize>> {
     let mut out = vec![];
     fn rec(n: &Node, path: &mut Vec<usize>, out: &mut Vec<Vec<usize>>) {
@@ -115,98 +104,204 @@ fn action_sites(forms: &[Node]) -> Vec<Vec<usize>> {
             }
         }
     }
-    for (fi, f) in forms.iter().enumerate() {
-        let Node::List(l) = f else { continue };
-        match head(f) {
-            Some("deflayer") => {
-                for i in 2..l.len() {
-                    let mut p = vec![fi, i];
-                    rec(&l[i], &mut p, &mut out);
-                }
+    fn form(f: &Node, base: Vec<usize>, out: &mut Vec<Vec<usize>>) {
+        let Node::List(l) = f else { return };
+        let cells: Vec<usize> = match head(f) {
+            Some("deflayer") => (2..l.len()).collect(),
+            Some("deflayermap") => (3..l.len()).step_by(2).collect(),
+            Some("defalias") => (2..l.len()).step_by(2).collect(),
+            Some("platform") if l.len() == 3 => {
+                let mut b = base.clone();
+                b.push(2);
+                form(&l[2], b, out);
+                vec![]
             }
-            Some("deflayermap") => {
-                let mut i = 3;
-                while i < l.len() {
-                    let mut p = vec![fi, i];
-                    rec(&l[i], &mut p, &mut out);
-                    i += 2;
-                }
-            }
-            _ => {}
+            _ => vec![],
+        };
+        for i in cells {
+            let mut p = base.clone();
+            p.push(i);
+            rec(&l[i], &mut p, out);
         }
+    }
+    for (fi, f) in forms.iter().enumerate() {
+        form(f, vec![fi], &mut out);
     }
     out
 }
 
+#[derive(Clone)]
+struct Item {
+    node: Node,
+    /// None: main file; Some(k): k-th included file. Items of one file are contiguous.
+    file: Option<usize>,
+}
+
 struct Rw {
-    forms: Vec<Node>,
-    files: Vec<(String, String)>,
+    items: Vec<Item>,
+    file_names: Vec<String>,
     n: usize,
     applied: Vec<&'static str>,
+    /// the top-level item the next rewrite should be applied to
+    focus: Option<usize>,
+    /// after a rewrite that creates a definition (defalias / defvar / deftemplate): move the focus to it
+    follow_def: bool,
 }
 
 impl Rw {
+    fn new(forms: Vec<Node>) -> Rw {
+        Rw { items: forms.into_iter().map(|node| Item { node, file: None }).collect(), file_names: vec![], n: 0, applied: vec![], focus: None, follow_def: false }
+    }
     fn fresh(&mut self, p: &str) -> String {
         self.n += 1;
         format!("{p}{}", self.n)
+    }
+    fn nodes(&self) -> Vec<Node> {
+        self.items.iter().map(|i| i.node.clone()).collect()
+    }
+    fn node_mut(&mut self, path: &[usize]) -> Option<&mut Node> {
+        let mut cur = &mut self.items.get_mut(*path.first()?)?.node;
+        for &i in &path[1..] {
+            match cur {
+                Node::List(l) => cur = l.get_mut(i)?,
+                _ => return None,
+            }
+        }
+        Some(cur)
+    }
+    /// insert a top-level item at flat position `pos`; it goes into the file of one of its neighbours
+    /// (or the main file at the edge of an included run), which keeps included runs contiguous
+    fn insert(&mut self, pos: usize, node: Node, rng: &mut Rng) -> usize {
+        let before = if pos > 0 { self.items.get(pos - 1).map(|i| i.file) } else { None };
+        let after = self.items.get(pos).map(|i| i.file);
+        let file = match (before, after) {
+            (Some(a), Some(b)) if a == b => a,
+            (Some(a), Some(b)) => {
+                if rng.coin() {
+                    a
+                } else {
+                    b
+                }
+            }
+            (Some(a), None) | (None, Some(a)) => {
+                if rng.coin() {
+                    a
+                } else {
+                    None
+                }
+            }
+            (None, None) => None,
+        };
+        self.items.insert(pos, Item { node, file });
+        if let Some(f) = self.focus {
+            if pos <= f {
+                self.focus = Some(f + 1);
+            }
+        }
+        pos
+    }
+    fn created_def(&mut self, pos: usize) {
+        if self.follow_def {
+            self.focus = Some(pos);
+        }
+    }
+    fn output(&self) -> (String, Vec<(String, String)>) {
+        let mut main: Vec<Node> = vec![];
+        let mut files: Vec<Vec<Node>> = vec![vec![]; self.file_names.len()];
+        let mut last: Option<usize> = None;
+        for it in &self.items {
+            match it.file {
+                None => main.push(it.node.clone()),
+                Some(k) => {
+                    if last != Some(k) {
+                        main.push(list(vec![atom("include"), atom(&self.file_names[k])]));
+                    }
+                    files[k].push(it.node.clone());
+                }
+            }
+            last = it.file;
+        }
+        (sexp::print(&main), self.file_names.iter().cloned().zip(files.iter().map(|f| sexp::print(f))).collect())
     }
 
     fn uses_template(n: &Node) -> bool {
         contains_atom(n, &|a| a == "t!" || a == "template-expand")
     }
+    /// prefer candidates inside the focused item
+    fn focused<T: Clone>(&self, cands: Vec<(usize, T)>) -> Vec<T> {
+        if let Some(f) = self.focus {
+            let inside: Vec<T> = cands.iter().filter(|c| c.0 == f).map(|c| c.1.clone()).collect();
+            if !inside.is_empty() {
+                return inside;
+            }
+        }
+        cands.into_iter().map(|c| c.1).collect()
+    }
 
     fn alias(&mut self, rng: &mut Rng) -> bool {
-        let sites: Vec<Vec<usize>> = action_sites(&self.forms)
+        let forms = self.nodes();
+        let sites: Vec<(usize, Vec<usize>)> = action_sites(&forms)
             .into_iter()
-            .filter(|p| match sexp::get(&self.forms, p) {
+            .filter(|p| match sexp::get(&forms, p) {
                 Some(Node::Atom(a)) => a != "reverse-release-order",
                 Some(_) => true,
                 None => false,
             })
+            // the new alias is defined in front of the whole item: a value inside a defalias item that refers
+            // (directly, or through a variable / template) to an alias defined earlier in that same item cannot be hoisted
+            .filter(|p| {
+                let in_defalias = contains_atom(&forms[p[0]], &|a| a == "defalias");
+                !(in_defalias && sexp::get(&forms, p).map(|n| contains_atom(n, &|a| a.starts_with('@') || a.starts_with('$') || a == "t!" || a == "template-expand")).unwrap_or(false))
+            })
+            .map(|p| (p[0], p))
             .collect();
+        let sites = self.focused(sites);
         if sites.is_empty() {
             return false;
         }
         let site = rng.pick(&sites).clone();
         let name = self.fresh("zz");
-        let Some(slot) = get_mut(&mut self.forms, &site) else { return false };
+        let Some(slot) = self.node_mut(&site) else { return false };
         let old = std::mem::replace(slot, atom(&format!("@{name}")));
-        // defined before use: directly in front of the form that now refers to it
-        self.forms.insert(site[0], list(vec![atom("defalias"), atom(&name), old]));
+        // defined before use: directly in front of the item that now refers to it
+        let pos = self.insert(site[0], list(vec![atom("defalias"), atom(&name), old]), rng);
+        self.created_def(pos);
         true
     }
 
     /// mode 0: whole action list, 1: atom (key or number), 2: atom through concat
     fn var(&mut self, rng: &mut Rng, mode: u8) -> bool {
-        let mut sites: Vec<Vec<usize>> = vec![];
-        for p in action_sites(&self.forms) {
-            let Some(n) = sexp::get(&self.forms, &p) else { continue };
+        let forms = self.nodes();
+        let mut sites: Vec<(usize, Vec<usize>)> = vec![];
+        for p in action_sites(&forms) {
+            let Some(n) = sexp::get(&forms, &p) else { continue };
             match (mode, n) {
-                (0, Node::List(_)) => sites.push(p),
+                (0, Node::List(_)) => sites.push((p[0], p)),
                 (1 | 2, Node::Atom(a)) => {
                     // an action name cannot be a variable: only key-like atoms
                     if a.chars().all(|c| c.is_ascii_alphanumeric()) && a.len() >= (if mode == 2 { 2 } else { 1 }) && a != "rpt" && a != "sldr" {
-                        sites.push(p);
+                        sites.push((p[0], p));
                     }
                 }
-                (1 | 2, Node::List(_)) => {
+                (1 | 2, Node::List(l)) => {
                     for i in number_children(n) {
-                        if mode == 1 || matches!(&sexp::get(&self.forms, &[p.clone(), vec![i]].concat()), Some(Node::Atom(a)) if a.len() >= 2) {
+                        if mode == 1 || matches!(&l[i], Node::Atom(a) if a.len() >= 2) {
                             let mut q = p.clone();
                             q.push(i);
-                            sites.push(q);
+                            sites.push((q[0], q));
                         }
                     }
                 }
                 _ => {}
             }
         }
+        let sites = self.focused(sites);
         if sites.is_empty() {
             return false;
         }
         let site = rng.pick(&sites).clone();
         let name = self.fresh("zv");
-        let Some(slot) = get_mut(&mut self.forms, &site) else { return false };
+        let Some(slot) = self.node_mut(&site) else { return false };
         let old = std::mem::replace(slot, atom(&format!("${name}")));
         let value = match (mode, &old) {
             (2, Node::Atom(a)) => {
@@ -220,37 +315,105 @@ impl Rw {
         // all defvar forms are read before anything that uses them; the position is free
         let pos = match rng.usize(3) {
             0 => site[0],
-            1 => self.forms.len(),
-            _ => rng.usize(self.forms.len() + 1),
+            1 => self.items.len(),
+            _ => rng.usize(self.items.len() + 1),
         };
-        // keep it out of the way of a defcfg that must stay first-ish: any position is legal
-        self.forms.insert(pos, def);
+        let pos = self.insert(pos, def, rng);
+        self.created_def(pos);
         true
     }
 
-    fn template(&mut self, rng: &mut Rng, if_equal: bool) -> bool {
+    // ---- template conditionals. Parameters of every conditional template: zp (payload), zq = yes, zr = no
+
+    fn cond(rng: &mut Rng, truth: bool, content: Vec<Node>) -> Node {
+        let pick = rng.usize(6);
+        let (op, a, b): (&str, Node, Node) = match (pick, truth) {
+            (0, true) | (1, false) => ("if-equal", atom("$zq"), atom(if truth { "yes" } else { "no" })),
+            (1, true) | (0, false) => ("if-not-equal", atom("$zq"), atom(if truth { "no" } else { "yes" })),
+            (2, true) | (3, false) => ("if-in-list", atom(if truth { "$zq" } else { "$zr" }), list(vec![atom("maybe"), atom("yes"), list(vec![atom("nested"), atom("ok")])])),
+            (3, true) | (2, false) => ("if-not-in-list", atom(if truth { "$zr" } else { "$zq" }), list(vec![atom("yes"), atom("maybe")])),
+            (4, true) | (5, false) => (if truth { "if-not-equal" } else { "if-equal" }, atom("$zq"), atom("$zr")),
+            _ => (if truth { "if-equal" } else { "if-not-equal" }, atom("$zq"), atom("$zq")),
+        };
+        let mut v = vec![atom(op), a, b];
+        v.extend(content);
+        list(v)
+    }
+    fn garbage(rng: &mut Rng, depth: u32) -> Vec<Node> {
+        let mut v = vec![atom("this-is-not-an-action"), list(vec![atom("nor"), atom("$zp"), atom("this")])];
+        if depth > 0 {
+            // a conditional that would hold, inside a branch that does not
+            let inner = Self::garbage(rng, depth - 1);
+            v.push(Self::cond(rng, true, inner));
+        }
+        v
+    }
+    /// a conditional nest of the given depth that evaluates to exactly `payload`
+    fn cond_true_nest(rng: &mut Rng, payload: Vec<Node>, depth: u32) -> Node {
+        let mut content = vec![];
+        if rng.coin() {
+            let g = Self::garbage(rng, 1);
+            content.push(Self::cond(rng, false, g));
+        }
+        if depth > 1 {
+            content.push(Self::cond_true_nest(rng, payload, depth - 1));
+        } else {
+            content.extend(payload);
+        }
+        if rng.coin() {
+            let g = Self::garbage(rng, 0);
+            content.push(Self::cond(rng, false, g));
+        }
+        Self::cond(rng, true, content)
+    }
+    /// `body` (a list) with child `ci` produced by a nest of conditionals and vanishing conditionals sprinkled among its children
+    fn conditionalise_list(rng: &mut Rng, body: Vec<Node>, ci: usize) -> Vec<Node> {
+        let mut v = vec![];
+        for (i, x) in body.into_iter().enumerate() {
+            if i > 0 && rng.chance(1, 3) {
+                let g = Self::garbage(rng, 1);
+                v.push(Self::cond(rng, false, g));
+            }
+            if i == ci {
+                let depth = 2 + rng.below(2) as u32;
+                v.push(Self::cond_true_nest(rng, vec![x], depth));
+            } else {
+                v.push(x);
+            }
+        }
+        if rng.chance(1, 3) {
+            let g = Self::garbage(rng, 0);
+            v.push(Self::cond(rng, false, g));
+        }
+        v
+    }
+
+    /// style 0: plain, 1: if-equal at the top of the body, 2: nested conditionals at the top of the body and inside the list
+    fn template(&mut self, rng: &mut Rng, style: u8) -> bool {
         // parent action list with a child (action or timeout number) that becomes the argument
-        let mut cands: Vec<(Vec<usize>, usize)> = vec![];
-        for p in action_sites(&self.forms) {
-            let Some(n) = sexp::get(&self.forms, &p) else { continue };
+        let forms = self.nodes();
+        let mut cands: Vec<(usize, (Vec<usize>, usize))> = vec![];
+        for p in action_sites(&forms) {
+            let Some(n) = sexp::get(&forms, &p) else { continue };
             if !matches!(n, Node::List(_)) || Self::uses_template(n) {
                 continue;
             }
             for i in action_children(n).into_iter().chain(number_children(n)) {
-                cands.push((p.clone(), i));
+                cands.push((p[0], (p.clone(), i)));
             }
         }
+        let cands = self.focused(cands);
         if cands.is_empty() {
             return false;
         }
         let (site, ci) = rng.pick(&cands).clone();
         let tname = self.fresh("zt");
-        let Some(slot) = get_mut(&mut self.forms, &site) else { return false };
+        let Some(slot) = self.node_mut(&site) else { return false };
         let Node::List(mut body) = slot.clone() else { return false };
         let arg = std::mem::replace(&mut body[ci], atom("$zp"));
         let expand = if rng.coin() { "t!" } else { "template-expand" };
-        let (params, content, call): (Node, Vec<Node>, Node) = if if_equal {
-            (
+        let (params, content, call): (Node, Vec<Node>, Node) = match style {
+            1 => (
                 list(vec![atom("zp"), atom("zq")]),
                 vec![
                     list(vec![atom("if-equal"), atom("$zq"), atom("yes"), list(body)]),
@@ -258,31 +421,77 @@ impl Rw {
                     list(vec![atom("if-not-equal"), atom("$zq"), atom("yes"), atom("neither-is-this")]),
                 ],
                 list(vec![atom(expand), atom(&tname), arg, atom("yes")]),
-            )
-        } else {
-            (list(vec![atom("zp")]), vec![list(body)], list(vec![atom(expand), atom(&tname), arg]))
+            ),
+            2 => {
+                let inner = list(Self::conditionalise_list(rng, body, ci));
+                let dtop = 1 + rng.below(3) as u32;
+                let top = if rng.coin() { vec![Self::cond_true_nest(rng, vec![inner], dtop)] } else { vec![inner] };
+                let mut content = vec![];
+                if rng.coin() {
+                    let g = Self::garbage(rng, 1);
+                    content.push(Self::cond(rng, false, g));
+                }
+                content.extend(top);
+                (list(vec![atom("zp"), atom("zq"), atom("zr")]), content, list(vec![atom(expand), atom(&tname), arg, atom("yes"), atom("no")]))
+            }
+            _ => (list(vec![atom("zp")]), vec![list(body)], list(vec![atom(expand), atom(&tname), arg])),
         };
+        let Some(slot) = self.node_mut(&site) else { return false };
         *slot = call;
         let mut def = vec![atom("deftemplate"), atom(&tname), params];
         def.extend(content);
         // declared before its use
         let pos = rng.usize(site[0] + 1);
-        self.forms.insert(pos, list(def));
+        let pos = self.insert(pos, list(def), rng);
+        self.created_def(pos);
         true
     }
 
-    fn movable(f: &Node) -> bool {
-        !matches!(head(f), Some("include") | Some("platform"))
+    /// a whole deflayer / defalias item becomes the body of a template (conditionals inside the item's
+    /// list) and is put back by a top-level expansion
+    fn template_toplevel(&mut self, rng: &mut Rng) -> bool {
+        let cands: Vec<(usize, usize)> = self
+            .items
+            .iter()
+            .enumerate()
+            .filter(|(_, it)| matches!(head(&it.node), Some("deflayer") | Some("defalias")) && !Self::uses_template(&it.node) && matches!(&it.node, Node::List(l) if l.len() >= 3))
+            .map(|(i, _)| (i, i))
+            .collect();
+        let cands = self.focused(cands);
+        if cands.is_empty() {
+            return false;
+        }
+        let fi = *rng.pick(&cands);
+        let Node::List(mut body) = self.items[fi].node.clone() else { return false };
+        let ci = 2 + rng.usize(body.len() - 2);
+        let arg = std::mem::replace(&mut body[ci], atom("$zp"));
+        let tname = self.fresh("zt");
+        let inner = list(Self::conditionalise_list(rng, body, ci));
+        let dtop = 1 + rng.below(2) as u32;
+        let content = if rng.coin() { vec![Self::cond_true_nest(rng, vec![inner], dtop)] } else { vec![inner] };
+        let expand = if rng.coin() { "t!" } else { "template-expand" };
+        self.items[fi].node = list(vec![atom(expand), atom(&tname), arg, atom("yes"), atom("no")]);
+        let mut def = vec![atom("deftemplate"), atom(&tname), list(vec![atom("zp"), atom("zq"), atom("zr")])];
+        def.extend(content);
+        let pos = rng.usize(fi + 1);
+        let pos = self.insert(pos, list(def), rng);
+        self.created_def(pos);
+        true
     }
 
-    fn run_of_forms(&self, rng: &mut Rng) -> Option<(usize, usize)> {
-        if self.forms.is_empty() {
+    fn run_of_items(&self, rng: &mut Rng, ok: &dyn Fn(&Item) -> bool) -> Option<(usize, usize)> {
+        if let Some(f) = self.focus {
+            if self.items.get(f).map(ok).unwrap_or(false) {
+                return Some((f, f + 1));
+            }
+        }
+        if self.items.is_empty() {
             return None;
         }
         for _ in 0..8 {
-            let i = rng.usize(self.forms.len());
-            let j = (i + 1 + rng.usize(3)).min(self.forms.len());
-            if self.forms[i..j].iter().all(Self::movable) {
+            let i = rng.usize(self.items.len());
+            let j = (i + 1 + rng.usize(3)).min(self.items.len());
+            if self.items[i..j].iter().all(ok) {
                 return Some((i, j));
             }
         }
@@ -290,48 +499,62 @@ impl Rw {
     }
 
     fn include(&mut self, rng: &mut Rng) -> bool {
-        let Some((i, j)) = self.run_of_forms(rng) else { return false };
+        // anything that is still in the main file can move, platform-wrapped items and expansions included
+        let Some((i, j)) = self.run_of_items(rng, &|it: &Item| it.file.is_none()) else { return false };
         let fname = format!("{}.kbd", self.fresh("zinc"));
-        let moved: Vec<Node> = self.forms.drain(i..j).collect();
-        self.files.push((fname.clone(), sexp::print(&moved)));
-        self.forms.insert(i, list(vec![atom("include"), atom(&fname)]));
+        self.file_names.push(fname);
+        let k = self.file_names.len() - 1;
+        for it in &mut self.items[i..j] {
+            it.file = Some(k);
+        }
         true
     }
 
     fn platform(&mut self, rng: &mut Rng) -> bool {
-        let Some((i, j)) = self.run_of_forms(rng) else { return false };
+        let Some((i, j)) = self.run_of_items(rng, &|it: &Item| head(&it.node) != Some("platform")) else { return false };
         // one configuration item per platform form (the parser requires exactly that)
         for k in i..j {
-            let item = std::mem::replace(&mut self.forms[k], atom("x"));
+            let item = std::mem::replace(&mut self.items[k].node, atom("x"));
             let plats = if rng.coin() { list(vec![atom("linux")]) } else { list(vec![atom("macos"), atom("linux")]) };
-            self.forms[k] = list(vec![atom("platform"), plats, item]);
+            self.items[k].node = list(vec![atom("platform"), plats, item]);
         }
         // an item for a platform that is not this one is dropped before it is looked at
         let decoy = list(vec![atom("platform"), list(vec![atom("win"), atom("winiov2")]), list(vec![atom("garbage"), atom("that"), list(vec![atom("would")]), atom("\"not parse\""), atom("@nowhere"), atom("$nothing")])]);
-        let pos = rng.usize(self.forms.len() + 1);
-        self.forms.insert(pos, decoy);
+        let pos = rng.usize(self.items.len() + 1);
+        self.insert(pos, decoy, rng);
         true
     }
 
     fn layermap(&mut self, rng: &mut Rng) -> bool {
-        let Some(keys) = self.forms.iter().find(|f| head(f) == Some("defsrc")).and_then(|f| match f {
+        fn unwrap(n: &Node) -> &Node {
+            match n {
+                Node::List(l) if head(n) == Some("platform") && l.len() == 3 => &l[2],
+                _ => n,
+            }
+        }
+        let Some(keys) = self.items.iter().map(|it| unwrap(&it.node)).find(|f| head(f) == Some("defsrc")).and_then(|f| match f {
             Node::List(l) if l[1..].iter().all(|x| matches!(x, Node::Atom(_))) => Some(l[1..].to_vec()),
             _ => None,
         }) else {
             return false;
         };
-        let cands: Vec<usize> = self
-            .forms
+        let cands: Vec<(usize, usize)> = self
+            .items
             .iter()
             .enumerate()
-            .filter(|(_, f)| head(f) == Some("deflayer") && matches!(f, Node::List(l) if l.len() == keys.len() + 2 && matches!(l[1], Node::Atom(_))))
-            .map(|(i, _)| i)
+            .filter(|(_, it)| {
+                let f = unwrap(&it.node);
+                head(f) == Some("deflayer") && matches!(f, Node::List(l) if l.len() == keys.len() + 2 && matches!(l[1], Node::Atom(_)) && !l[2..].iter().any(|c| matches!(c, Node::List(_)) && matches!(head(c), Some("if-equal") | Some("if-not-equal") | Some("if-in-list") | Some("if-not-in-list"))))
+            })
+            .map(|(i, _)| (i, i))
             .collect();
+        let cands = self.focused(cands);
         if cands.is_empty() {
             return false;
         }
         let fi = *rng.pick(&cands);
-        let Node::List(l) = self.forms[fi].clone() else { return false };
+        let wrapped = head(&self.items[fi].node) == Some("platform");
+        let Node::List(l) = unwrap(&self.items[fi].node).clone() else { return false };
         let mut v = vec![atom("deflayermap"), list(vec![l[1].clone()])];
         let mut order: Vec<usize> = (0..keys.len()).collect();
         if rng.coin() {
@@ -341,27 +564,44 @@ impl Rw {
             v.push(keys[k].clone());
             v.push(l[2 + k].clone());
         }
-        self.forms[fi] = list(v);
+        if wrapped {
+            if let Node::List(w) = &mut self.items[fi].node {
+                w[2] = list(v);
+            }
+        } else {
+            self.items[fi].node = list(v);
+        }
         true
     }
 
     fn apply(&mut self, kind: &'static str, rng: &mut Rng) -> bool {
-        let ok = match kind {
-            "alias" => self.alias(rng),
-            "var-action" => self.var(rng, 0),
-            "var-atom" => self.var(rng, 1),
-            "var-concat" => self.var(rng, 2),
-            "template" => self.template(rng, false),
-            "template-if-equal" => self.template(rng, true),
-            "include" => self.include(rng),
-            "platform" => self.platform(rng),
-            "layermap" => self.layermap(rng),
-            _ => false,
-        };
+        let mut ok = self.apply_once(kind, rng);
+        if !ok && self.focus.is_some() {
+            // not applicable to the focused item: anywhere else
+            let f = self.focus.take();
+            ok = self.apply_once(kind, rng);
+            self.focus = f;
+        }
         if ok {
             self.applied.push(kind);
         }
         ok
+    }
+    fn apply_once(&mut self, kind: &'static str, rng: &mut Rng) -> bool {
+        match kind {
+            "alias" => self.alias(rng),
+            "var-action" => self.var(rng, 0),
+            "var-atom" => self.var(rng, 1),
+            "var-concat" => self.var(rng, 2),
+            "template" => self.template(rng, 0),
+            "template-if-equal" => self.template(rng, 1),
+            "template-nested-cond" => self.template(rng, 2),
+            "template-toplevel-form" => self.template_toplevel(rng),
+            "include" => self.include(rng),
+            "platform" => self.platform(rng),
+            "layermap" => self.layermap(rng),
+            _ => false,
+        }
     }
 }
 
@@ -427,32 +667,54 @@ struct Case {
     hists: Vec<Vec<Ev>>,
 }
 
-const N_SYS: u64 = 9 * 40;
+const N_SINGLE: u64 = 11 * 30;
+/// every ordered pair of rewrite kinds x {second rewrite on the same item, second rewrite on the
+/// definition the first one created} x 2 configurations
+const N_PAIR: u64 = 11 * 11 * 2 * 2;
+const N_SYS: u64 = N_SINGLE + N_PAIR;
+
+fn focus_candidates(forms: &[Node]) -> Vec<usize> {
+    forms.iter().enumerate().filter(|(_, f)| head(f) == Some("deflayer")).map(|(i, _)| i).collect()
+}
 
 fn make_case(ctx: &Ctx, idx: u64) -> Case {
-    // first block: every rewrite kind singly on seed-independent configurations
+    // first block: every rewrite kind singly, then every ordered pair, on seed-independent configurations
     let sys = idx < N_SYS;
     let mut rng = if sys { Rng::for_case(0x5eed, "C16", "sys", idx) } else { Rng::for_case(ctx.seed, "C16", "case", idx) };
     let p = profile();
     let g = gen::generate(&mut rng, &p);
     let mut variants = vec![];
     if let Some(forms) = sexp::parse(&g.text) {
-        let mut plans: Vec<Vec<&'static str>> = vec![];
-        if sys {
-            plans.push(vec![KINDS[(idx % 9) as usize]]);
+        // (kinds, focus an item?, follow created definitions?)
+        let mut plans: Vec<(Vec<&'static str>, bool, bool)> = vec![];
+        if idx < N_SINGLE {
+            plans.push((vec![KINDS[(idx % 11) as usize]], false, false));
+        } else if sys {
+            let k = idx - N_SINGLE;
+            let (a, b, follow) = ((k % 11) as usize, ((k / 11) % 11) as usize, (k / 121) % 2 == 1);
+            plans.push((vec![KINDS[a], KINDS[b]], true, follow));
         } else {
-            plans.push(vec![*rng.pick(&KINDS)]);
-            plans.push(vec![*rng.pick(&KINDS)]);
+            plans.push((vec![*rng.pick(&KINDS)], false, false));
+            let n = 2 + rng.usize(2);
+            plans.push(((0..n).map(|_| *rng.pick(&KINDS)).collect(), true, rng.coin()));
             let n = 2 + rng.usize(ctx.tier.sel(3, 5));
-            plans.push((0..n).map(|_| *rng.pick(&KINDS)).collect());
+            plans.push(((0..n).map(|_| *rng.pick(&KINDS)).collect(), rng.coin(), rng.coin()));
         }
-        for plan in plans {
-            let mut rw = Rw { forms: forms.clone(), files: vec![], n: 0, applied: vec![] };
+        for (plan, focus, follow) in plans {
+            let mut rw = Rw::new(forms.clone());
+            if focus {
+                let c = focus_candidates(&forms);
+                if !c.is_empty() {
+                    rw.focus = Some(*rng.pick(&c));
+                }
+                rw.follow_def = follow;
+            }
             for k in plan {
                 rw.apply(k, &mut rng);
             }
             if !rw.applied.is_empty() {
-                variants.push((rw.applied.clone(), sexp::print(&rw.forms), rw.files.clone()));
+                let (text, files) = rw.output();
+                variants.push((rw.applied.clone(), text, files));
             }
         }
     }
@@ -507,13 +769,19 @@ impl Check for C16Check {
             ks.sort();
             ks.dedup();
             // one rewrite kind: its name; several different kinds: "composed" (the witness lists them)
-            let label = if ks.len() == 1 { ks[0].to_string() } else { "composed".to_string() };
+            let label = if ks.len() == 1 { ks[0].to_string() } else if kinds.len() == 2 { format!("{}>{}", kinds[0], kinds[1]) } else { "composed".to_string() };
             for k in kinds {
                 out.inc(&format!("applied:{k}"));
             }
             out.inc("variants");
             if kinds.len() > 1 {
                 out.inc("variants_composed");
+            }
+            if idx >= N_SINGLE && idx < N_SYS && kinds.len() == 2 {
+                out.inc("pairs_on_same_item");
+            }
+            if !files.is_empty() && files.iter().any(|(_, t)| t.contains("(platform ") || t.contains("(t! ") || t.contains("(template-expand ") || t.contains("(deftemplate ") || t.contains("(defalias zz") || t.contains("(defvar zv")) {
+                out.inc("variants_with_indirection_inside_included_file");
             }
             out.max("composition_length", kinds.len() as u64);
             let rewritten = digest(text, files);
@@ -586,11 +854,11 @@ impl Check for C16Check {
         out
     }
     fn rule(&self) -> String {
-        "case = one grammar-generated configuration (whole action grammar except rpt-any, dynamic macros, on-press/release-delay and chords v2; boundary numbers and deliberately rejected ones included) x up to 3 rewritten variants: two single rewrites and one composition of 2-4 (quick) / 2-6 (thorough) drawn from {defalias + @name at an action position of a layer cell or nested in multi/tap-hold/fork/switch/tap-dance; defvar of a whole action list; defvar of a key atom or timeout number; the same through (concat ..); deftemplate with the sub-action or number as argument expanded with t!/template-expand; the same guarded by if-equal / if-not-equal with decoy branches; 1-3 consecutive top-level items moved into an included file; the same wrapped in (platform (linux) ..) plus an unparsable (platform (win winiov2) ..) decoy; a deflayer rewritten as deflayermap with keys in defsrc or shuffled order}. The first 360 cases apply each of the 9 rewrite kinds singly to 40 configurations that are the same for every seed. Compared: accept/reject, mapped keys, key outputs, overrides, sequence trie, virtual-key map, options, layer names, Debug rendering of every mapped layer cell and virtual-key cell of every layer, and the OS trace (tick-exact, redundant releases dropped) + end state on 2 random physically consistent histories with OS repeats and gaps around every configured number. Non-trivial = variant with at least one rewrite applied; distinct = (accept/reject, set of rewrite kinds, action kinds in the configuration).".into()
+        "case = one grammar-generated configuration (whole action grammar except rpt-any, dynamic macros, on-press/release-delay and chords v2; boundary numbers and deliberately rejected ones included) x up to 3 rewritten variants: one single rewrite, one composition of 2-3 applied to the SAME top-level item (optionally following the definition the previous rewrite created), one free composition of 2-4 (quick) / 2-6 (thorough), drawn from 11 kinds {defalias + @name at an action position of a layer cell or alias value or nested in multi/tap-hold/fork/switch/tap-dance; defvar of a whole action list; defvar of a key atom or timeout number; the same through (concat ..); deftemplate with the sub-action or number as argument expanded with t!/template-expand; the same guarded by if-equal / if-not-equal with decoy branches; the same with conditionals nested 2-3 deep (if-equal, if-not-equal, if-in-list, if-not-in-list, true and false branches, false branches containing conditionals that would hold) both at the top of the template body and inside the action list; a whole deflayer / defalias item written as a template body with such conditionals inside its list and put back by a top-level expansion; 1-3 consecutive top-level items moved into an included file; items wrapped in (platform (linux) ..) plus an unparsable (platform (win winiov2) ..) decoy; a deflayer rewritten as deflayermap}. The configuration is kept as one flat item list with a file tag per item, so rewrites apply equally inside included files: platform-wrapped items, template definitions and expansions, aliases and variables can be defined in an included file and used in the main file after the include and vice versa. The first 814 cases are the same for every seed: each kind singly on 30 configurations, then every ordered pair of kinds (121) applied to the same item, once staying on the item and once following the created definition, on 2 configurations each. Compared: accept/reject, mapped keys, key outputs, overrides, sequence trie, virtual-key map, options, layer names, Debug rendering of every mapped layer cell and virtual-key cell of every layer, and the OS trace (tick-exact, redundant releases dropped) + end state on 2 random physically consistent histories with OS repeats and gaps around every configured number. Non-trivial = variant with at least one rewrite applied; distinct = (accept/reject, rewrite kinds, action kinds in the configuration).".into()
     }
     fn assumptions(&self) -> Vec<String> {
         vec![
-            "rewrite sites are restricted to places where the guide promises neutrality: aliases and variables only at action positions reachable from deflayer/deflayermap cells (not in defvirtualkeys/defchords, not action names, not inside macros or quoted strings); aliases are defined directly before the form that uses them; templates are declared before their use and never nested; include/platform are applied to whole top-level items only and never nested in each other".into(),
+            "rewrite sites are restricted to places where the guide promises neutrality: aliases and variables only at action positions reachable from deflayer/deflayermap cells and defalias values (not in defvirtualkeys/defchords, not action names, not inside macros or quoted strings); aliases are defined directly before the item that uses them (a value inside a defalias item that refers, directly or through a variable/template, to an alias of the same item is not hoisted); templates are declared before their use and never nested in each other; include is applied to whole top-level items of the main file only (no nested includes), platform wraps exactly one item and is not nested in platform".into(),
             "variables standing for atoms are only used for alphanumeric key names and timeout numbers".into(),
             "configurations whose Debug rendering is not a function of the text (two parses of the original differ) are compared on everything except the cell rendering".into(),
             "actions known to crash or sleep at run time on the unchanged tree (rpt-any, dynamic macros, on-press-delay, chords v2 with use-defsrc) are not generated".into(),
@@ -609,6 +877,9 @@ impl Check for C16Check {
             ("applied:var-concat", 300),
             ("applied:template", 300),
             ("applied:template-if-equal", 300),
+            ("applied:template-nested-cond", 300),
+            ("applied:template-toplevel-form", 300),
+            ("pairs_on_same_item", 400),
             ("applied:include", 300),
             ("applied:platform", 300),
             ("applied:layermap", 300),
